@@ -65,6 +65,7 @@ def sizes_of(labels, K):
 class C08(Check):
     pid = 'C08'
     validate = True
+    fork_logging = True       # DEBUG logging on/off is a symbolic input of every path
     anchors = [('src/fast_ticc/cluster_maintenance.py', 'repopulate_empty_clusters'),
                ('src/fast_ticc/cluster_maintenance.py', '_find_ranked_donor_cluster_ids'),
                ('src/fast_ticc/cluster_maintenance.py', '_find_point_donor'),
@@ -123,6 +124,11 @@ class C08(Check):
         Rp = self.R
         cm = Rp.cm
         m = c.int('m', 1, mmax)
+        m_form = 'int'
+        if mode == 'sizes' and bool(int(c.int('m_is_uint8', 0, 1))):
+            # the same minimum size handed over as an unsigned NumPy integer scalar
+            m = core.SymInt(I(m), 'np.uint8')
+            m_form = 'np.uint8'
         if mode == 'labels':
             labels = [c.int('l_%d' % i, 0, K - 1) for i in range(P)]
         else:
@@ -154,13 +160,13 @@ class C08(Check):
             raise
         except Exception as exc:
             c.notes['unexpected_exception'] = repr(exc)
-            c.notes.update({'K': K, 'P': P, 'labels': pre, 'm': int(m)})
+            c.notes.update({'K': K, 'P': P, 'labels': pre, 'm': int(m), 'm_form': m_form})
             c.prove('labels_valid_and_conserved', False)
             return
         finally:
             cm.random = old_random
         mm = int(m)
-        c.notes.update({'K': K, 'P': P, 'labels': pre, 'm': mm})
+        c.notes.update({'K': K, 'P': P, 'labels': pre, 'm': mm, 'm_form': m_form})
         # the input state is never modified, whatever happened
         untouched = [state.point_labels is pre_labels_obj, [int(l) for l in state.point_labels] == pre,
                      len(state.clusters) == K, all(a is b for a, b in zip(state.clusters, pre_clusters)),
